@@ -448,6 +448,9 @@ struct Exp {
     msgs: Vec<&'static str>,
     /// the call is legitimately expensive for these inputs (never "small")
     heavy: bool,
+    /// the cost of the call does not depend on the size of the exponents (a far exponent does not
+    /// make the input "large")
+    cheap_exp: bool,
     known: Vec<KnownSpec>,
 }
 
@@ -458,12 +461,13 @@ struct Pre {
     /// the unspecified aspect is "returns, or panics with this dedicated message"
     may: Option<&'static str>,
     heavy: bool,
+    cheap_exp: bool,
     known: Vec<KnownSpec>,
 }
 
 impl Pre {
     fn new() -> Pre {
-        Pre { viol: Vec::new(), unspec: None, may: None, heavy: false, known: Vec::new() }
+        Pre { viol: Vec::new(), unspec: None, may: None, heavy: false, cheap_exp: false, known: Vec::new() }
     }
     /// the documentation leaves open whether the call is rejected or answered when `cond`, but
     /// names the message of the rejection: returning is fine, a panic must carry `msg` (or the
@@ -492,6 +496,10 @@ impl Pre {
         self.heavy |= cond;
         self
     }
+    fn cheap_exp(mut self, cond: bool) -> Pre {
+        self.cheap_exp |= cond;
+        self
+    }
     fn known(mut self, cond: bool, id: &'static str, on: On) -> Pre {
         if cond {
             self.known.push(KnownSpec { id, on });
@@ -504,14 +512,14 @@ impl Pre {
                 Some(m) if self.viol.iter().all(|v| !v.1.is_empty()) => std::iter::once(m).chain(self.viol.iter().map(|v| v.1)).collect(),
                 _ => vec![],
             };
-            return Exp { kind: Kind::Unspec, label: l, msgs, heavy: self.heavy, known: self.known };
+            return Exp { kind: Kind::Unspec, label: l, msgs, heavy: self.heavy, cheap_exp: false, known: self.known };
         }
         if let Some((l, _)) = self.viol.first() {
             let any = self.viol.iter().any(|v| v.1.is_empty());
             let msgs = if any { vec![] } else { self.viol.iter().map(|v| v.1).collect() };
-            return Exp { kind: Kind::Pan, label: l, msgs, heavy: self.heavy, known: self.known };
+            return Exp { kind: Kind::Pan, label: l, msgs, heavy: self.heavy, cheap_exp: self.cheap_exp, known: self.known };
         }
-        Exp { kind: Kind::Ret, label: "must return", msgs: vec![], heavy: self.heavy, known: self.known }
+        Exp { kind: Kind::Ret, label: "must return", msgs: vec![], heavy: self.heavy, cheap_exp: self.cheap_exp, known: self.known }
     }
 }
 
@@ -1390,13 +1398,23 @@ fn pre_div(x: &FV, y: &FV, p: u64, base: u64) -> Exp {
 
 /// % and the Euclidean forms align the operands as integers
 fn pre_rem(x: &FV, y: &FV) -> Exp {
+    pre_rem_gen(x, y, true)
+}
+
+/// `modular`: the operation is `%` itself. When the dividend's exponent is the higher one it scales
+/// the dividend with a modular power of the base (any gap is cheap), except in base 2 where the
+/// power of two is shifted in; every other case (divisor's exponent higher, base 2, the
+/// Euclidean forms, which also produce the quotient) aligns the operands digit by digit
+fn pre_rem_gen(x: &FV, y: &FV, modular: bool) -> Exp {
     let gap = (x.exp as i128 - y.exp as i128).unsigned_abs();
+    let aligns = !modular || x.sci.base == 2 || y.exp > x.exp;
     Pre::new()
         .unspec(any_extreme(&[x, y]), L_EXT)
         .must(any_inf(&[x, y]), L_INF, M_INF)
         .must(x.finite() && y.finite() && y.zero, L_DIV0, "")
-        .unspec(x.finite() && y.finite() && !x.zero && !y.zero && gap > (1 << 20), L_FAR)
-        .heavy(gap > 4096)
+        .unspec(x.finite() && y.finite() && !x.zero && !y.zero && gap > (1 << 20) && aligns, L_FAR)
+        .heavy(gap > 4096 && aligns)
+        .cheap_exp(!aligns && !any_extreme(&[x, y]))
         .done()
 }
 
@@ -1404,7 +1422,7 @@ const KF_EUCLID: &str = "C16/float-euclid-infinity-unchecked";
 
 /// div_euclid / rem_euclid / div_rem_euclid: as `%`
 fn pre_euclid(x: &FV, y: &FV) -> Exp {
-    let mut e = pre_rem(x, y);
+    let mut e = pre_rem_gen(x, y, false);
     if any_inf(&[x, y]) {
         e.known.push(KnownSpec { id: KF_EUCLID, on: On::Returns });
         e.known.push(KnownSpec { id: KF_EUCLID, on: On::Panic("divisor must not be 0") });
@@ -2653,8 +2671,8 @@ fn words_of(i: &Int) -> usize {
     i.mag.trimmed_len()
 }
 
-fn flt_small(f: &Flt) -> bool {
-    f.inf != 0 || (words_of(&f.sig) <= 8 && f.exp.unsigned_abs() <= 1000 && f.prec <= 100)
+fn flt_small(f: &Flt, cheap_exp: bool) -> bool {
+    f.inf != 0 || (words_of(&f.sig) <= 8 && (cheap_exp || f.exp.unsigned_abs() <= 1000) && f.prec <= 100)
 }
 
 fn is_small(c: &Case, op: &Op, e: &Exp) -> bool {
@@ -2664,8 +2682,8 @@ fn is_small(c: &Case, op: &Op, e: &Exp) -> bool {
         && (u.b == 0 || words_of(&c.b) <= 8)
         && (u.c == 0 || words_of(&c.c) <= 8)
         && (u.d == 0 || words_of(&c.d) <= 8)
-        && (!u.x || flt_small(&c.x))
-        && (!u.y || flt_small(&c.y))
+        && (!u.x || flt_small(&c.x, e.cheap_exp))
+        && (!u.y || flt_small(&c.y, e.cheap_exp))
         && (!u.p || c.p <= 100)
         && c.s.len() <= 200
         && (!matches!(u.n, NK::Grow | NK::Pow | NK::Prec) || c.n <= 4096)
@@ -3004,11 +3022,11 @@ fn flt_edge(base: u64) -> BoxedStrategy<Flt> {
         (101, -2),
         (1, 40),
     ];
-    let far: Vec<(i64, i64)> = vec![(1, 1 << 21), (1, -(1 << 21)), (3, 1 << 40), (-3, -(1 << 40)), (1, 1 << 62), (-1, -(1 << 62)), (1, i64::MAX), (1, i64::MIN + 1), (-7, i64::MAX - 1)];
+    let far: Vec<(i64, i64)> = vec![(1, 1 << 21), (1, -(1 << 21)), (7, 1 << 27), (12345, 300_000_000), (-9973, 1 << 30), (5, -(1 << 28)), (3, 1 << 40), (-3, -(1 << 40)), (1, 1 << 62), (-1, -(1 << 62)), (1, i64::MAX), (1, i64::MIN + 1), (-7, i64::MAX - 1)];
     let mk = |(s, e): (i64, i64)| (Int::from_i128(s as i128), e);
     let val = prop_oneof![
         24 => prop::sample::select(fixed).prop_map(mk),
-        2 => prop::sample::select(far).prop_map(mk),
+        4 => prop::sample::select(far).prop_map(mk),
         12 => (int_edge(), prop::sample::select(vec![0i64, 1, -1, 2, -2, 10, -10, 63, -64, 100, -100, 999, -999])),
     ];
     (prop_oneof![18 => Just(0i8), 1 => Just(1i8), 1 => Just(-1i8)], val, prec_edge(), 0u8..4)
